@@ -381,11 +381,13 @@ ResultPaths ==
   [ p \in {"r1.txt", "r2.txt", "sub/r3.txt", "./r1.txt", "sub/../r2.txt", "sub//r3.txt",
             "missing.txt", "../out.txt", "sub/../../out.txt", "/etc/hostname",
             ".ergo/lock", "./.ergo/lock", "sub/../.ergo/lock", ".ergo",
-            "sub", "pipe.fifo", "my file.txt"} |->
+            "sub", "pipe.fifo", "my file.txt", "a#b.txt", "q?x=1.txt", "p%20c.txt", "100%.txt"} |->
       CASE p \in {"r1.txt", "./r1.txt"} -> [ok |-> TRUE, clean |-> "r1.txt"]
         [] p \in {"r2.txt", "sub/../r2.txt"} -> [ok |-> TRUE, clean |-> "r2.txt"]
         [] p \in {"sub/r3.txt", "sub//r3.txt"} -> [ok |-> TRUE, clean |-> "sub/r3.txt"]
-        [] p = "my file.txt" -> [ok |-> TRUE, clean |-> p]
+        \* names with characters that mean something in a URL: the path is stored as given,
+        \* file_url escapes them (the driver compares it with the URL of the absolute path)
+        [] p \in {"my file.txt", "a#b.txt", "q?x=1.txt", "p%20c.txt", "100%.txt"} -> [ok |-> TRUE, clean |-> p]
         [] OTHER -> [ok |-> FALSE, clean |-> p] ]
 PathOK(p) == p \in DOMAIN ResultPaths /\ ResultPaths[p].ok
 PathClean(p) == IF p \in DOMAIN ResultPaths THEN ResultPaths[p].clean ELSE p
